@@ -88,17 +88,23 @@ type replayer struct {
 	stages   int
 	reopens  int
 	flushes  int
-	wmode    int               // scalar storage writes through 0 SetStorage, 1 SetRawStorage, 2 EncodeStorage
-	sdbChunk bool              // this chunk goes through runtime/statedb (behaviours with statedb operations always do)
-	sreg     *registry         // storage content <-> BuildStorageTrie hash
-	leaves   map[string]string // "content|address" -> hex of the committed account leaf
-	builds   int
-	leafChk  int
-	sideChk  int
+	wmode    int  // scalar storage writes through 0 SetStorage, 1 SetRawStorage, 2 EncodeStorage
+	sdbChunk bool // this chunk goes through runtime/statedb (behaviours with statedb operations always do)
+	// blind chunk: no storage getter (and no BuildStorageTrie) is called on a State object before its first Stage, so
+	// that Stage has to open the base storage tries itself (native builtin code writes slots it never read); bases are
+	// committed at conflict number 1, every other one with a conflict-0 sibling that wrote the same storage tries
+	blind      bool
+	blindSteps int
+	baseCtr    int
+	sreg       *registry         // storage content <-> BuildStorageTrie hash
+	leaves     map[string]string // "content|address" -> hex of the committed account leaf
+	builds     int
+	leafChk    int
+	sideChk    int
 }
 
 func (rp *replayer) mode(w *world) string {
-	return fmt.Sprintf("%s, statedb=%v", []string{"SetStorage", "SetRawStorage", "EncodeStorage"}[rp.wmode], w.useSDB)
+	return fmt.Sprintf("%s, statedb=%v", []string{"SetStorage", "SetRawStorage", "EncodeStorage"}[rp.wmode], w.useSDB) + fmt.Sprintf(", blind=%v", rp.blind)
 }
 
 func (rp *replayer) viewLen() int    { return rp.na * (5 + rp.nk) }
@@ -121,11 +127,14 @@ func (rp *replayer) store(w *world, a, k, v int) {
 	}
 }
 
-// compare every getter of the whole universe with the expected view
-func (rp *replayer) compare(w *world, view []int) string {
+// compare every getter of the whole universe with the expected view (storage getters only when withStorage)
+func (rp *replayer) compare(w *world, view []int, withStorage bool) string {
 	keys := make([]int, rp.nk)
 	for i := range keys {
 		keys[i] = i + 1
+	}
+	if !withStorage {
+		keys = nil
 	}
 	for a := 1; a <= rp.na; a++ {
 		e := view[(a-1)*(5+rp.nk) : a*(5+rp.nk)]
@@ -297,6 +306,15 @@ func (rp *replayer) applyContent(w *world, c []int) error {
 func (rp *replayer) openBase(w *world, content []int) (kind, what string) {
 	ck := key(content)
 	root, ok := rp.bases[ck]
+	if !ok && rp.blind {
+		k, wh, r := rp.buildForkedBase(w, content)
+		if k != "" {
+			return k, wh
+		}
+		root, ok = r, true
+		rp.bases[ck] = root
+		w.commits = nil
+	}
 	if !ok {
 		w.open(trie.Root{})
 		if err := rp.applyContent(w, content); err != nil {
@@ -321,6 +339,68 @@ func (rp *replayer) openBase(w *world, content []int) (kind, what string) {
 	return "", ""
 }
 
+// buildForkedBase commits the base content at conflict number 1 on top of a parent in which slot 1 of every account
+// with storage differs; for every other base a sibling at conflict number 0 writes the same storage tries first.
+func (rp *replayer) buildForkedBase(w *world, content []int) (kind, what string, root trie.Root) {
+	rp.baseCtr++
+	withSibling := rp.baseCtr%2 == 0
+	parent := append([]int{}, content...)
+	var accts []int
+	for a := 1; a <= rp.na; a++ {
+		e := parent[(a-1)*(6+rp.nk) : a*(6+rp.nk)]
+		if e[5] == 1 && (e[0] != 0 || e[1] != 0 || e[3] != 0 || e[4] != 0) {
+			e[6] = 1 - min(e[6], 1) // another value in slot 1 (0 <-> 1, 2 -> 0)
+			accts = append(accts, a)
+		}
+	}
+	stageCommit := func(ver trie.Version) (thor.Bytes32, string) {
+		h, _, err := w.doStageAt(ver)
+		if err != nil {
+			return h, "Stage: " + err.Error()
+		}
+		rp.stages++
+		if _, err := w.doCommit(); err != nil {
+			return h, "Commit: " + err.Error()
+		}
+		return h, ""
+	}
+	w.open(trie.Root{})
+	if err := rp.applyContent(w, parent); err != nil {
+		return "error", err.Error(), root
+	}
+	pver := w.d.nextVer()
+	ph, what := stageCommit(pver)
+	if what != "" {
+		return "error", what, root
+	}
+	if k, wh := rp.reg.check(key(parent), ph); k != "" {
+		return k, wh, root
+	}
+	va, vb := w.d.siblingVers()
+	if withSibling {
+		w.open(trie.Root{Hash: ph, Ver: pver})
+		for _, a := range accts {
+			rp.store(w, a, 1, 2) // a third value
+			rp.store(w, a, 2, 1)
+		}
+		if _, what := stageCommit(va); what != "" {
+			return "error", what, root
+		}
+	}
+	w.open(trie.Root{Hash: ph, Ver: pver})
+	for _, a := range accts {
+		rp.store(w, a, 1, content[(a-1)*(6+rp.nk)+6])
+	}
+	h, what := stageCommit(vb)
+	if what != "" {
+		return "error", what, root
+	}
+	if k, wh := rp.reg.check(key(content), h); k != "" {
+		return k, wh, root
+	}
+	return "", "", trie.Root{Hash: h, Ver: vb}
+}
+
 func (rp *replayer) run(bi int, b [][]int) (v *violation) {
 	w := &world{d: rp.d, useSDB: rp.sdbChunk}
 	for _, e := range b {
@@ -333,6 +413,7 @@ func (rp *replayer) run(bi int, b [][]int) (v *violation) {
 		return &violation{Kind: kind, Beh: bi, Step: step, What: what, History: b, Cache: rp.d.cache, Mode: rp.mode(w)}
 	}
 	deleted := map[int]bool{} // addresses deleted in the current State object
+	staged := false           // the current State object was staged at least once
 	var stagedContent []int
 	defer func() {
 		if r := recover(); r != nil {
@@ -404,6 +485,7 @@ func (rp *replayer) run(bi int, b [][]int) (v *violation) {
 				return fail(k, wh)
 			}
 			stagedContent = e[4+vl : 4+vl+cl]
+			staged = true
 		case 11:
 			n, cerr := w.doCommit()
 			if cerr != nil {
@@ -422,20 +504,24 @@ func (rp *replayer) run(bi int, b [][]int) (v *violation) {
 				rp.flushes++
 			}
 			w.open(w.commits[x-1])
-			deleted = map[int]bool{}
+			deleted, staged = map[int]bool{}, false
 		default:
 			panic(fmt.Sprintf("HARNESS: unknown op %d", op))
 		}
 		if err != nil {
 			return fail("error", fmt.Sprintf("op %d: %v", op, err))
 		}
-		if what := rp.compare(w, view); what != "" {
+		sighted := !rp.blind || staged
+		if !sighted {
+			rp.blindSteps++
+		}
+		if what := rp.compare(w, view, sighted); what != "" {
 			return fail("read", what)
 		}
 		if what := rp.compareSide(w, side); what != "" {
 			return fail("read", what)
 		}
-		for a := 1; a <= rp.na; a++ {
+		for a := 1; a <= rp.na && sighted; a++ {
 			if deleted[a] {
 				continue // BuildStorageTrie is only specified for addresses not deleted in this State object
 			}
@@ -524,7 +610,8 @@ func replayMain(in, out string, na, nk int, seed int64, limit int) {
 			if c&1 == 1 {
 				cache = "real"
 			}
-			rp.d, rp.bases, rp.wmode, rp.sdbChunk = newDB(cache), map[string]trie.Root{}, (c/2)%3, c >= 6
+			// every fifth chunk is blind (see replayer.blind)
+			rp.d, rp.bases, rp.wmode, rp.sdbChunk, rp.blind = newDB(cache), map[string]trie.Root{}, (c/2)%3, c >= 6, (i/chunk+int(seed))%5 == 4
 		}
 		if v := rp.run(i, b); v != nil {
 			viols = append(viols, v)
@@ -545,7 +632,7 @@ func replayMain(in, out string, na, nk int, seed int64, limit int) {
 		"reopens": rp.reopens, "code_cache_flushes": rp.flushes,
 		"distinct_contents": len(reg.byContent), "distinct_roots": len(reg.byRoot), "stage_hits_on_known_content": reg.hits,
 		"violations": viols, "roots": roots, "sroots": sroots, "leaves": rp.leaves, "na": na, "nk": nk,
-		"build_storage_trie_calls": rp.builds, "committed_leaf_checks": rp.leafChk, "side_journal_checks": rp.sideChk,
+		"build_storage_trie_calls": rp.builds, "committed_leaf_checks": rp.leafChk, "side_journal_checks": rp.sideChk, "blind_steps": rp.blindSteps,
 	}
 	writeJSON(out, res)
 	fmt.Printf("{\"replayed\":%d,\"steps\":%d,\"stages\":%d,\"distinct_roots\":%d,\"violations\":%d}\n",
